@@ -298,7 +298,15 @@ let judge_constdiv kind args forms =
     | "rem" -> of_res hx (iop_spec IoRem a d)
     | "divrem" -> of_res pair (divrem_spec a d)
     | _ -> P "unknown-op" in
-  verdict ~cls names forms (all_same (exactly w))
+  (* as-is: C02's ConstDivisor kernels on the magnitude + the sign of the dividend (Forms/FormsR4Spec.v); `big` is the
+     plain operator (judged by the specification only) *)
+  let w64 = Zar.of_int 64 in
+  let asis = if Zar.numbits a > 40000 then None else Some (fun n ->
+    if n = "big" then exactly w else exactly (match op with
+      | "div" -> of_res hx (cd_div_asis w64 a d)
+      | "rem" -> of_res hx (cd_rem_asis w64 a d)
+      | _ -> of_res pair (cd_divrem_asis w64 a d))) in
+  verdict ~cls ?asis names forms (all_same (exactly w))
 
 (* ---------------------------------------------------------------- floats *)
 let mode_of = function
